@@ -260,8 +260,15 @@ impl Model for QModel {
         for seq in seqs {
             let items: Vec<(String, String)> = seq.iter().map(|i| pairs[*i].clone()).collect();
             let label = json!({"try_from_iter": items});
-            acc.calls += 1;
+            acc.calls += 2;
             let got = Qualifiers::try_from_iter(items.iter().map(|(k, v)| (k.as_str(), v.as_str())));
+            // the same pairs through an iterator whose size hint is only a lower bound of zero
+            let got_inexact = Qualifiers::try_from_iter(items.iter().map(|(k, v)| (k.as_str(), v.as_str())).filter(|_| true));
+            match (&got, &got_inexact) {
+                (Ok(a), Ok(b)) if a == b => {},
+                (Err(_), Err(_)) => {},
+                _ => acc.violate(Violation { prop: "C11", kind: "try_from_iter-depends-on-size-hint".into(), case: json!({"engine": self.name, "init": label, "actions": []}), detail: format!("array-backed iterator: {:?}, filtered iterator: {:?}", got.as_ref().map(content).map_err(|e| e.to_string()), got_inexact.as_ref().map(content).map_err(|e| e.to_string())) }),
+            }
             let mut want: Option<BTreeMap<String, String>> = Some(BTreeMap::new());
             for (k, v) in &items {
                 if !R::valid_key(k) {
